@@ -258,42 +258,28 @@ def cannot_fail_with_const_arg(F, cf, call, idx, value):
     ts = F.targets(call)
     if not ts:
         return False
+    from .evalcfg import explore
     for t in ts:
-        removed = set()
-        for b in t.blocks.values():
-            if b.cond is None or len(b.succ) != 2:
-                continue
-            tree, pos = _strip_not(b.cond, True)
-            truth = None
-            if isinstance(tree, dict) and tree.get("k") == "var" and tree.get("p") == idx:
-                truth = bool(value)
-            elif isinstance(tree, dict) and tree.get("k") == "bin" and tree.get("op") in ("==", "!="):
-                l, r = tree.get("l"), tree.get("r")
-                for a, c in ((l, r), (r, l)):
-                    while isinstance(a, dict) and a.get("k") == "icast":
-                        a = a.get("e")
-                    cv = c
-                    while isinstance(cv, dict) and cv.get("k") == "icast" and "v" not in cv:
-                        cv = cv.get("e")
-                    if isinstance(a, dict) and a.get("k") == "var" and a.get("p") == idx \
-                            and isinstance(cv, dict) and "v" in cv:
-                        truth = (value == cv["v"]) if tree["op"] == "==" else (value != cv["v"])
-            if truth is None:
-                continue
-            if not pos:
-                truth = not truth
-            # remove the edge that contradicts the known truth
-            dead = b.succ[1] if truth else b.succ[0]
-            if dead is not None:
-                removed.add((b.id, dead))
-        reach = t.reachable(removed_edges=removed)
+        # concrete evaluation of the callee with the parameter pinned: locals assigned from constants are
+        # tracked (`bool ok = true; if (p) ok = Read(); if (!ok) return false;`), unknown conditions go both ways
+        if idx >= len(t.params) or "d" not in t.params[idx]:
+            return False
+        bad = {"hit": False}
+        fail_blocks = {}
         for b, ev in t.returns():
-            if b.id not in reach:
-                continue
             c = classify_return(t, b, ev)
             if c == "ok":
                 continue
             if isinstance(c, tuple) and not cf.call_can_fail(c[1]):
                 continue
+            fail_blocks[b.id] = c
+
+        def on_block(b, env):
+            if b.id in fail_blocks:
+                bad["hit"] = True
+                return False
+            return True
+        explore(t, {("v", t.params[idx]["d"]): int(value)}, on_block)
+        if bad["hit"]:
             return False
     return True
